@@ -328,6 +328,7 @@ class WatchSpec(SeqSpec):
 # ====================================================================== Future
 
 class FutureSpec(SeqSpec):
+    ctx_zoo = True      # contexts come from the zoo (cause / DeadlineExceeded / plain), see vlib.apply_ctx_zoo
     component = "future"
     imports = CONC_IMPORTS
     preamble = ("Local Open Scope nat_scope.\nImport Fut.\n"
@@ -443,7 +444,7 @@ class FutureSpec(SeqSpec):
             elif k == "call-waitctx":
                 evs.append("LCallWaitCtx %d %d" % (e[1], e[2]))
             elif k == "ret-waitctx":
-                evs.append("LRetWaitCtx %d %s%%Z %s" % (e[1], z(e[2]), cb(e[3])))
+                evs.append("LRetWaitCtx %d %s%%Z %s" % (e[1], z(e[2]), cb(bool(e[3]))))
         return "([%s], %d, %d, [%s])" % ("; ".join(ths), nctx, int(case["cfg"].get("ngates", 1)), "; ".join(evs))
 
     def oracle(self, case, obs):
@@ -479,6 +480,9 @@ class FutureSpec(SeqSpec):
                 pending[e[1]] = ("wait", None, i)
             elif k == "call-waitctx":
                 pending[e[1]] = ("waitctx", e[2], i)
+            elif k == "ret-waitctx" and isinstance(e[3], str):
+                pending.pop(e[1], None)
+                fails.append(("wrong-error", "event %d: WaitContext returned %r, which is not its context's error" % (i, e[3][6:])))
             elif k == "ret-wait" or (k == "ret-waitctx" and not e[3]):
                 pending.pop(e[1], None)
                 seen_values.add(e[2])
